@@ -60,6 +60,9 @@ struct Shared {
     stats: BTreeMap<String, usize>,
     header: String,
     rec: Option<Arc<Mutex<Vec<usize>>>>,
+    /// the batch being explored (for the failure lines, which are written as soon as an execution fails)
+    pname: String,
+    bseed: u64,
 }
 
 fn make_sched(kind: &str, seed: u64, iters: usize) -> Box<dyn Scheduler + Send> {
@@ -141,7 +144,17 @@ fn finish_execution(shared: &Arc<Mutex<Shared>>, ctx: &Arc<Ctx>, kind: &str, end
     let fails: Vec<Failure> = std::mem::take(&mut *ctx.fails.lock().unwrap());
     let failed = !fails.is_empty();
     let schedule = schedule.or_else(|| s.rec.as_ref().map(|r| r.lock().unwrap().clone()));
-    for f in fails { s.failures.push((f, schedule.clone().unwrap_or_default())); }
+    for f in fails {
+        // written and flushed at once: an execution that goes on to abort the process (a second panic inside a destructor while
+        // a deadlocked execution is torn down) must not take the failures found so far with it
+        let props: Vec<String> = f.props.iter().map(|p| json_str(p)).collect();
+        let sch: Vec<String> = schedule.clone().unwrap_or_default().iter().map(|x| x.to_string()).collect();
+        let mut out = std::io::stdout();
+        let _ = writeln!(out, "{{\"kind\":\"failure\",\"program_name\":{},\"program\":{},\"sched\":{},\"seed\":{},\"props\":[{}],\"what\":{},\"schedule\":\"{}\"}}",
+            json_str(&s.pname), json_str(&ctx.prog.to_text()), json_str(kind), s.bseed, props.join(","), json_str(&f.what), sch.join(","));
+        let _ = out.flush();
+        s.failures.push((f, schedule.clone().unwrap_or_default()));
+    }
     if s.traces_left > 0 || failed {
         let header = s.header.clone();
         if let Some(out) = s.trace_out.as_mut() {
@@ -232,17 +245,14 @@ fn main() {
                 for (si, kind) in scheds.iter().enumerate() {
                     let bseed = seed.wrapping_mul(1_000_003).wrapping_add((pi * 31 + si) as u64);
                     shared.lock().unwrap().header = format!("{} seed={}", name, bseed);
-                    let fbefore = shared.lock().unwrap().failures.len();
+                    { let mut s = shared.lock().unwrap(); s.pname = name.clone(); s.bseed = bseed; }
+                    // progress marker: if the process dies inside this batch the caller knows which program it was exploring
+                    writeln!(out, "{{\"kind\":\"running\",\"program_name\":{},\"program\":{},\"sched\":{},\"seed\":{}}}", json_str(name), json_str(&prog.to_text()), json_str(kind), bseed).unwrap();
+                    out.flush().unwrap();
                     let ebefore = shared.lock().unwrap().executions;
                     run_batch(prog, kind, bseed, if replay.is_some() { 1 } else { iters }, &shared, replay.clone());
                     let s = shared.lock().unwrap();
                     total_exec += s.executions - ebefore;
-                    for (f, sch) in &s.failures[fbefore..] {
-                        let props: Vec<String> = f.props.iter().map(|p| json_str(p)).collect();
-                        let sch: Vec<String> = sch.iter().map(|x| x.to_string()).collect();
-                        writeln!(out, "{{\"kind\":\"failure\",\"program_name\":{},\"program\":{},\"sched\":{},\"seed\":{},\"props\":[{}],\"what\":{},\"schedule\":\"{}\"}}",
-                            json_str(name), json_str(&prog.to_text()), json_str(kind), bseed, props.join(","), json_str(&f.what), sch.join(",")).unwrap();
-                    }
                     if s.failures.len() >= max_fail { break; }
                 }
                 if shared.lock().unwrap().failures.len() >= max_fail { break; }
